@@ -1,6 +1,10 @@
 import NdnProofs.Props.C09
 import NdnProofs.Props.C09Tables
 import NdnProofs.Props.C09ToStr
+import NdnProofs.Props.ComponentGen
+import NdnProofs.Props.TlvVarGen
+import NdnGen.Component
+import NdnGen.TlvVar
 #print axioms Ndn.C09.decode_encode_name
 #print axioms Ndn.C09.normalize_wire
 #print axioms Ndn.C09.isPrefix_iff
@@ -43,3 +47,16 @@ import NdnProofs.Props.C09ToStr
 #print axioms Ndn.C09.writeTlNum_table
 #print axioms Ndn.C09.parseTlNum_table
 #print axioms Ndn.C09.int_digit_limit
+#print axioms Ndn.ComponentGen.all_translated
+#print axioms Ndn.ComponentGen.get_type_eq
+#print axioms Ndn.ComponentGen.get_value_eq
+#print axioms Ndn.ComponentGen.to_number_eq
+#print axioms Ndn.ComponentGen.from_bytes_eq
+#print axioms Ndn.ComponentGen.from_bytes_nonpos
+#print axioms Ndn.ComponentGen.from_number_eq
+#print axioms Ndn.ComponentGen.from_typed_number_eq
+#print axioms Ndn.TlvVarGen.all_translated
+#print axioms Ndn.TlvVarGen.get_tl_num_size_eq
+#print axioms Ndn.TlvVarGen.write_tl_num_eq
+#print axioms Ndn.TlvVarGen.pack_uint_bytes_eq
+#print axioms Ndn.TlvVarGen.parse_tl_num_eq
